@@ -412,7 +412,7 @@ struct C07 : World {
 
   // Inputs that trigger a defect already reported (see out/C07): the oracle is unchanged, only generate()
   // steers around them so that other violations are not masked.  0 = no steering.
-  static const int STEER_DEFAULT = 1;
+  static const int STEER_DEFAULT = 0;  // the three dvb_demux.c defects are repaired in /repo (see regress/C07): nothing is steered around any more
 
   // plan: knobs = configuration of stream, interface and scheduler; ops:
   //  task 0 "frame"   a=[fseed, nlines, split, extra184, pts]   one video frame of the VBI service
